@@ -44,7 +44,9 @@ VARIABLES
   par,          \* [1..MaxCommit -> 0..MaxCommit]   first parent
   ckind,        \* [1..MaxCommit -> STRING]   how the commit was made ("none" if unused)
   nc,           \* number of commits made
-  head,         \* 0..MaxCommit
+  head,         \* 0..MaxCommit   tip of the current branch
+  tip2,         \* 0..MaxCommit   tip of the other branch (0 = there is no other branch)
+  side,         \* BOOLEAN        TRUE when the current branch is the second one ("side"), FALSE on "main"
   stash,        \* Seq([wt, idx, base])  stash stack, newest first
   truth,        \* [1..MaxUid -> Author \cup {None}]
   nu,           \* next free uid
@@ -63,7 +65,7 @@ VARIABLES
   taint,        \* trace mode: deviation names that fired with effect in the current run
   hist          \* gen mode: replay script (hidden by VIEW)
 
-gitvars == <<wt, idx, tree, par, ckind, nc, head, stash, truth, nu, der, dirty, ops>>
+gitvars == <<wt, idx, tree, par, ckind, nc, head, tip2, side, stash, truth, nu, der, dirty, ops>>
 aivars  == <<wl, ini, isnap, notes, snote, blame>>
 vars    == <<gitvars, aivars, l, viol, drift, taint, hist>>
 view    == <<gitvars, aivars, taint>>
@@ -274,7 +276,7 @@ Made(c)     == c \in 1..nc
 \* "commit_carry": ... after commands that must carry pending attribution (soft/mixed reset, stash push/pop)
 \* "commit_lossy": ... after commands that may legitimately drop it (hard reset, path checkout, restore)
 PlainCommit(c) == Made(c) /\ ckind[c] = "commit"
-CarryCommit(c) == Made(c) /\ ckind[c] \in {"commit", "commit_carry"}
+CarryCommit(c) == Made(c) /\ ckind[c] \in {"commit", "commit_carry", "rebase", "cherry", "amend", "squash"}
 NewUid(c, f, n)   == tree[c][f][n][1] \notin UidsOf(TreeOf(par[c])[f])
 GitAdded(c, f, n) == tree[c][f][n] \notin LinesOf(TreeOf(par[c])[f])
 \* the authors that ever wrote (part of) the line: its own and those of the lines it was derived from by "mod"
@@ -329,7 +331,7 @@ Holds(p) == CASE p = "C01_Exact" -> C01_Exact
 Rec == IF Mode = "trace" THEN ndJsonDeserialize(IOEnv.TRACE) ELSE <<>>
 Gen == Mode = "gen"
 Ev  == Rec[l]
-Guard(g) == ~Gen \/ g
+Guard(g) == IF Gen THEN g ELSE TRUE
 Debug == Mode = "trace" /\ IOEnv.VERIF_DEBUG = "1"
 
 \* JSON arrays are 1-based sequences: position b+1 holds base b
@@ -342,14 +344,16 @@ ObsNote(n) == [has |-> n.has, files |-> n.files, prompts |-> SetOf(n.prompts), w
 FiredDevs(Op(_)) == { d \in Dev : Op(Dev) # Op(Dev \ {d}) }
 
 \* The git side after a step (contents, refs): computed in gen mode, logged in trace mode
-NG(nwt, nidx, ntree, npar, nck, nnc, nhead) ==
+NG2(nwt, nidx, ntree, npar, nck, nnc, nhead, ntip2, nside) ==
   IF Gen
-  THEN [wt |-> nwt, idx |-> nidx, tree |-> ntree, par |-> npar, ckind |-> nck, nc |-> nnc, head |-> nhead]
+  THEN [wt |-> nwt, idx |-> nidx, tree |-> ntree, par |-> npar, ckind |-> nck, nc |-> nnc, head |-> nhead,
+        tip2 |-> ntip2, side |-> nside]
   ELSE [wt |-> Ev.git.wt, idx |-> Ev.git.idx, tree |-> From1(Ev.git.tree), par |-> From1(Ev.git.par),
-        ckind |-> nck, nc |-> Ev.git.nc, head |-> Ev.git.head]
+        ckind |-> nck, nc |-> Ev.git.nc, head |-> Ev.git.head, tip2 |-> Ev.git.tip2, side |-> Ev.git.side]
+NG(nwt, nidx, ntree, npar, nck, nnc, nhead) == NG2(nwt, nidx, ntree, npar, nck, nnc, nhead, tip2, side)
 GitAdopt(g) ==
   /\ wt' = g.wt /\ idx' = g.idx /\ tree' = g.tree /\ par' = g.par /\ ckind' = g.ckind
-  /\ nc' = g.nc /\ head' = g.head
+  /\ nc' = g.nc /\ head' = g.head /\ tip2' = g.tip2 /\ side' = g.side
 SameG == NG(wt, idx, tree, par, ckind, nc, head)
 
 \* Adopt git-ai's private state.  c* = what the mechanism operators computed.
@@ -559,6 +563,17 @@ CarryTo(b, onto, f, c) ==
   Trim([n \in 1..Len(c) |-> IF c[n] \notin LinesOf(TreeOf(onto)[f]) THEN Known(b, f, c[n]) ELSE H])
 PendingMap(b, f, c) == Trim([n \in 1..Len(c) |-> PendAuthor(b, f, c[n][1])])
 
+\* pending author of line n of the current content c, as the code computes it: the newest entry's line numbers
+\* (or INITIAL's) are applied to the CURRENT content.  When the file went back to HEAD's content it is skipped by
+\* the implicit human checkpoint and the newest entry no longer describes c: deviation
+\* "stale_entry_applied_by_line_number" (the repaired design follows the lines by content).
+PendAt(D, e, inif, isf, c, n) ==
+  IF e.vaset
+  THEN IF "stale_entry_applied_by_line_number" \in D THEN At(e.va, n)
+       ELSE IF c[n][1] \in UidsOf(e.snap) THEN At(e.va, PosOfUid(e.snap, c[n][1])) ELSE H
+  ELSE IF "initial_is_line_numbers_only" \in D THEN At(inif, n)
+       ELSE IF c[n][1] \in UidsOf(isf) THEN At(inif, PosOfUid(isf, c[n][1])) ELSE H
+
 PreCk(D, b) == CkResult(D, wl[b], ini[b], isnap[b], TreeOf(b), wt, idx, "human", H, {}, TRUE)
 
 \* ---- git reset --hard [target]   (target = HEAD or its parent)
@@ -575,13 +590,9 @@ ResetHard(target) ==
 \* ---- git reset --soft|--mixed <parent of HEAD>   (undo the last commit, keep the work tree)
 ResetKeepMech(D, old, target) ==
   LET W1 == PreCk(D, old)
-      wlx == [wl EXCEPT ![old] = W1]
   IN  [f \in File |-> Trim([n \in 1..Len(wt[f]) |->
           IF wt[f][n] \notin LinesOf(TreeOf(target)[f])
-          THEN LET u == wt[f][n][1]
-                   e == W1.ent[f]
-                   p == IF e.vaset THEN (IF u \in UidsOf(e.snap) THEN At(e.va, PosOfUid(e.snap, u)) ELSE H)
-                        ELSE (IF u \in UidsOf(isnap[old][f]) THEN At(ini[old][f], PosOfUid(isnap[old][f], u)) ELSE H)
+          THEN LET p == PendAt(D, W1.ent[f], ini[old][f], isnap[old][f], wt[f], n)
                IN IF p # H THEN p ELSE CommAuthor(old, f, wt[f][n])
           ELSE H])]
 
@@ -651,6 +662,210 @@ GenDestructive ==
   \/ "stash" \in Alphabet /\ (StashPush \/ StashPop)
 
 -----------------------------------------------------------------------------
+(* History rewriting: a second branch, switch, rebase, cherry-pick, amend, merge --squash.
+   git's patch application is modelled only where it is unambiguous (a hunk applies when its context lines
+   and the text between them are unchanged in the new base); the generator never produces other cases, and
+   under trace validation git's effects are read from the log. *)
+
+START == <<0, 0>>
+ENDL  == <<0, 1>>
+RECURSIVE Ancestors(_)
+Ancestors(c) == IF c = 0 THEN {} ELSE {c} \cup Ancestors(par[c])
+MergeBase(a, b) == LET cs == Ancestors(a) \cap Ancestors(b) IN IF cs = {} THEN 0 ELSE Max(cs)
+\* commits after mb up to tip, oldest first
+RECURSIVE ChainFrom(_, _)
+ChainFrom(mb, tip) == IF tip = mb \/ tip = 0 THEN <<>> ELSE Append(ChainFrom(mb, par[tip]), tip)
+
+\* hunks of p -> c as <<ctx before, ctx after, old segment, new segment>>
+HunksOf(p, c) ==
+  LET cm == Common(p, c)
+      n  == Cardinality(cm)
+      ctx(k) == IF k = 0 THEN START ELSE c[KthSmallest(CommonPos(c, cm), k)]
+      cta(k) == IF k = n THEN ENDL ELSE c[KthSmallest(CommonPos(c, cm), k + 1)]
+  IN  { <<ctx(k), cta(k), SegAt(p, cm, k), SegAt(c, cm, k)>> : k \in { j \in 0..n : SegAt(p, cm, j) # SegAt(c, cm, j) } }
+HunkApplies(x, h) ==
+  /\ (h[1] = START \/ h[1] \in LinesOf(x)) /\ (h[2] = ENDL \/ h[2] \in LinesOf(x))
+  /\ LET lo == IF h[1] = START THEN 0 ELSE PosOfLine(x, h[1])
+         hi == IF h[2] = ENDL THEN Len(x) + 1 ELSE PosOfLine(x, h[2])
+     IN lo < hi /\ SubSeq(x, lo + 1, hi - 1) = h[3]
+ApplyHunk(x, h) ==
+  LET lo == IF h[1] = START THEN 0 ELSE PosOfLine(x, h[1])
+      hi == IF h[2] = ENDL THEN Len(x) + 1 ELSE PosOfLine(x, h[2])
+  IN  SubSeq(x, 1, lo) \o h[4] \o SubSeq(x, hi, Len(x))
+RECURSIVE ApplyHunks(_, _)
+ApplyHunks(x, hs) == IF hs = {} THEN x
+                     ELSE LET h == CHOOSE y \in hs : TRUE IN ApplyHunks(TLCEval(ApplyHunk(x, h)), TLCEval(hs \ {h}))
+\* uids stay unique: the new base must not already hold a line the patch adds
+Applies(x, p, c) == /\ \A h \in HunksOf(p, c) : HunkApplies(x, h)
+                    /\ UidsOf(x) \cap { c[i][1] : i \in Added(p, c) } = {}
+PatchTree(base, p, c) == [f \in File |-> ApplyHunks(base[f], HunksOf(p[f], c[f]))]
+PatchOK(base, p, c)   == \A f \in File : Applies(base[f], p[f], c[f])
+
+\* the note a rewritten commit should get: its added lines keep the author the original commit's note gave them
+FollowNote(N, o, tnew, tpar) ==
+  LET nf == [f \in File |-> Trim([n \in 1..Len(tnew[f]) |->
+                 IF tnew[f][n] \notin LinesOf(tpar[f]) /\ tnew[f][n][1] \in UidsOf(tree[o][f])
+                 THEN At(N[o].files[f], PosOfUid(tree[o][f], tnew[f][n][1])) ELSE H])]
+  IN  [has |-> N[o].has, files |-> nf, prompts |-> N[o].prompts, wf |-> TRUE]
+
+\* ---- git branch side   (the other branch is created at HEAD)
+MakeBranch ==
+  /\ Guard(head # 0 /\ tip2 = 0 /\ NoAgentDirty)
+  /\ LET g == NG2(wt, idx, tree, par, ckind, nc, head, head, side) IN GitAdopt(g) /\ AiSame(g)
+  /\ UNCHANGED <<truth, nu, der, dirty, stash, snote, ops>>
+  /\ Step([a |-> "Branch"])
+
+\* ---- git switch <other branch>   (plain: pending work is carried when git allows it)
+Switch ==
+  /\ Guard(/\ tip2 # 0 /\ tip2 # head /\ NoAgentDirty /\ stash = <<>>
+           /\ \A f \in File : (wt[f] = HeadTree[f] /\ idx[f] = HeadTree[f]) \/ tree[head][f] = tree[tip2][f])
+  /\ LET nwt  == [f \in File |-> IF wt[f] = HeadTree[f] THEN tree[tip2][f] ELSE wt[f]]
+         nidx == [f \in File |-> IF idx[f] = HeadTree[f] THEN tree[tip2][f] ELSE idx[f]]
+         g == NG2(nwt, nidx, tree, par, ckind, nc, tip2, head, ~side)
+         \* rename the working log iff the target has none
+         free == \A f \in File : ~wl[tip2].ent[f].has /\ ini[tip2][f] = <<>>
+     IN /\ GitAdopt(g)
+        /\ IF free
+           THEN AiAdopt(g, [wl EXCEPT ![tip2] = wl[head], ![head] = EmptyWL],
+                           [ini EXCEPT ![tip2] = ini[head], ![head] = NoMaps], notes, {})
+           ELSE AiSame(g)
+  /\ ops' = ops \cup {"switch"}
+  /\ UNCHANGED <<truth, nu, der, dirty, stash, snote>>
+  /\ Step([a |-> "Switch"])
+
+\* ---- git rebase <other branch>   (clean work tree, every patch applies)
+RECURSIVE RebaseRun(_, _, _, _, _, _)
+\* replay the commits of `chain` (oldest first) on top of commit `on`; returns [tree, par, ckind, notes, nc, last]
+RebaseRun(chain, on, T, P, K, st) ==
+  IF chain = <<>> THEN [tree |-> T, par |-> P, ckind |-> K, notes |-> st.notes, nc |-> st.nc, last |-> on]
+  ELSE LET o  == Head(chain)
+           k  == st.nc + 1
+           nt == PatchTree(T[on], TreeOf(par[o]), tree[o])
+           T2 == [T EXCEPT ![k] = nt]
+           N2 == [st.notes EXCEPT ![k] = FollowNote(notes, o, nt, T[on])]
+       \* TLCEval: arguments of a recursive call must be evaluated before the parameters are rebound
+       IN RebaseRun(TLCEval(Tail(chain)), k, TLCEval(T2), TLCEval([P EXCEPT ![k] = on]),
+                    TLCEval([K EXCEPT ![k] = st.kind]), TLCEval([notes |-> N2, nc |-> k, kind |-> st.kind]))
+RECURSIVE ChainApplies(_, _)
+ChainApplies(chain, base) ==
+  \* IF, not \/: inside an action TLC explores both sides of a disjunction
+  IF chain = <<>> THEN TRUE
+  ELSE IF ~PatchOK(base, TreeOf(par[Head(chain)]), tree[Head(chain)]) THEN FALSE
+  ELSE ChainApplies(TLCEval(Tail(chain)), TLCEval(PatchTree(base, TreeOf(par[Head(chain)]), tree[Head(chain)])))
+
+\* trace mode only: when git did something the generator never asks for, keep the state and adopt the log
+Unmodelled == [tree |-> tree, par |-> par, ckind |-> ckind, notes |-> notes,
+               nc |-> IF Gen THEN nc ELSE Ev.git.nc, last |-> head]
+KindNew(kind, newnc) == [c \in 1..MaxCommit |-> IF c > nc /\ c <= (IF Gen THEN newnc ELSE Ev.git.nc) THEN kind ELSE ckind[c]]
+\* what the generator expects git to produce (number of commits and the tree of the new tip): the harness drops
+\* a behaviour in which real git did something else (a conflict the simple patch model does not predict)
+ExpectAfter(chain, on) ==
+  LET r == RebaseRun(chain, on, tree, par, ckind, [notes |-> notes, nc |-> nc, kind |-> "x"])
+  IN  [nc |-> r.nc, t |-> r.tree[r.last]]
+
+Rebase ==
+  LET mb    == MergeBase(head, tip2)
+      chain == ChainFrom(mb, head)
+  IN
+  /\ Guard(/\ tip2 # 0 /\ mb # head /\ mb # tip2 /\ NoAgentDirty /\ stash = <<>>
+           /\ wt = HeadTree /\ idx = HeadTree
+           /\ nc + Len(chain) <= MaxCommit
+           /\ ChainApplies(chain, tree[tip2]))
+  /\ LET ok == IF Gen THEN TRUE ELSE (tip2 # 0 /\ nc + Len(chain) <= MaxCommit /\ ChainApplies(chain, tree[tip2]))
+         r  == IF ok THEN RebaseRun(chain, tip2, tree, par, ckind, [notes |-> notes, nc |-> nc, kind |-> "rebase"])
+               ELSE Unmodelled
+         g  == NG2(r.tree[r.last], r.tree[r.last], r.tree, r.par, KindNew("rebase", r.nc), r.nc, r.last, tip2, side)
+     IN /\ GitAdopt(g)
+        /\ AiAdopt(g, [wl EXCEPT ![r.last] = wl[head], ![head] = EmptyWL],
+                      [ini EXCEPT ![r.last] = ini[head], ![head] = NoMaps], r.notes, {})
+  /\ ops' = ops \cup {"rebase"}
+  /\ UNCHANGED <<truth, nu, der, dirty, stash, snote>>
+  /\ Step([a |-> "Rebase", exp |-> IF Gen THEN ExpectAfter(chain, tip2) ELSE <<>>])
+
+\* ---- git cherry-pick <commit of the other branch>
+CherryPick(o) ==
+  /\ Guard(/\ tip2 # 0 /\ o \in Ancestors(tip2) \ Ancestors(head) /\ NoAgentDirty /\ stash = <<>>
+           /\ wt = HeadTree /\ idx = HeadTree /\ nc + 1 <= MaxCommit
+           /\ PatchOK(HeadTree, TreeOf(par[o]), tree[o])
+           /\ PatchTree(HeadTree, TreeOf(par[o]), tree[o]) # HeadTree)
+  /\ LET ok == IF Gen THEN TRUE ELSE (o \in 1..nc /\ nc + 1 <= MaxCommit /\ PatchOK(HeadTree, TreeOf(par[o]), tree[o]))
+         r  == IF ok THEN RebaseRun(<<o>>, head, tree, par, ckind, [notes |-> notes, nc |-> nc, kind |-> "cherry"])
+               ELSE Unmodelled
+         g  == NG2(r.tree[r.last], r.tree[r.last], r.tree, r.par, KindNew("cherry", r.nc), r.nc, r.last, tip2, side)
+     IN /\ GitAdopt(g)
+        /\ AiAdopt(g, [wl EXCEPT ![r.last] = wl[head], ![head] = EmptyWL],
+                      [ini EXCEPT ![r.last] = ini[head], ![head] = NoMaps], r.notes, {})
+  /\ ops' = ops \cup {"cherry"}
+  /\ UNCHANGED <<truth, nu, der, dirty, stash, snote>>
+  /\ Step([a |-> "CherryPick", c |-> o, exp |-> IF Gen THEN ExpectAfter(<<o>>, head) ELSE <<>>])
+
+\* ---- git commit --amend -a   (everything in the work tree goes into the replacement of HEAD)
+AmendMech(D, old) ==
+  LET W1 == PreCk(D, old)
+      p  == par[old]
+  IN  [f \in File |-> Trim([n \in 1..Len(wt[f]) |->
+          IF wt[f][n] \notin LinesOf(TreeOf(p)[f])
+          THEN LET pa == PendAt(D, W1.ent[f], ini[old][f], isnap[old][f], wt[f], n)
+               IN IF pa # H THEN pa ELSE CommAuthor(old, f, wt[f][n])
+          ELSE H])]
+
+Amend ==
+  LET c == nc + 1
+      old == head
+  IN
+  /\ Guard(head # 0 /\ c <= MaxCommit /\ NoAgentDirty /\ stash = <<>> /\ (tip2 = 0 \/ head \notin Ancestors(tip2))
+           /\ wt # TreeOf(par[head]))
+  /\ LET op(D) == AmendMech(D, old)
+         g == NG(wt, wt, [tree EXCEPT ![c] = wt], [par EXCEPT ![c] = par[old]], KindNew("amend", c), c, c)
+         nf == op(Dev)
+     IN /\ GitAdopt(g)
+        /\ AiAdopt(g, [wl EXCEPT ![old] = EmptyWL], [ini EXCEPT ![old] = NoMaps],
+                      [notes EXCEPT ![c] = MkNote(nf, notes[old].prompts \cup
+                          (LET W1 == PreCk(Dev, old)
+                           IN IF \E f \in File : (IF W1.ent[f].vaset THEN HasAI(W1.ent[f].va) ELSE ini[old][f] # <<>>)
+                              THEN WLsess(W1) \cup SessionsIn(ini[old]) ELSE {}))],
+                      FiredDevs(op))
+  /\ dirty' = [f \in File |-> None]
+  /\ ops' = {}
+  /\ UNCHANGED <<truth, nu, der, stash, snote>>
+  /\ Step([a |-> "Amend"])
+
+\* ---- git merge --squash <other branch>; git commit
+SquashMech(src, mb) ==
+  [f \in File |-> LET nt == PatchTree(HeadTree, TreeOf(mb), tree[src])[f]
+                  IN Trim([n \in 1..Len(nt) |->
+                        IF nt[n] \notin LinesOf(HeadTree[f]) /\ nt[n][1] \in UidsOf(tree[src][f])
+                        THEN BlameLine(notes, tree, par, src, f, PosOfUid(tree[src][f], nt[n][1])) ELSE H])]
+MergeSquash ==
+  LET mb == MergeBase(head, tip2)
+      c  == nc + 1
+  IN
+  /\ Guard(/\ tip2 # 0 /\ mb # tip2 /\ NoAgentDirty /\ stash = <<>> /\ wt = HeadTree /\ idx = HeadTree
+           /\ c <= MaxCommit /\ PatchOK(HeadTree, TreeOf(mb), tree[tip2])
+           /\ PatchTree(HeadTree, TreeOf(mb), tree[tip2]) # HeadTree)
+  /\ LET ok == IF Gen THEN TRUE ELSE (tip2 # 0 /\ c <= MaxCommit /\ PatchOK(HeadTree, TreeOf(mb), tree[tip2]))
+         nt == IF ok THEN PatchTree(HeadTree, TreeOf(mb), tree[tip2]) ELSE HeadTree
+         g  == NG(nt, nt, [tree EXCEPT ![c] = nt], [par EXCEPT ![c] = head], KindNew("squash", c), c, c)
+         nf == IF ok THEN SquashMech(tip2, mb) ELSE NoMaps
+     IN /\ GitAdopt(g)
+        /\ AiAdopt(g, [wl EXCEPT ![head] = EmptyWL], [ini EXCEPT ![head] = NoMaps],
+                      [notes EXCEPT ![c] = MkNote(nf, SessionsIn(nf))], {})
+  /\ dirty' = [f \in File |-> None]
+  /\ ops' = {}
+  /\ UNCHANGED <<truth, nu, der, stash, snote>>
+  /\ Step([a |-> "MergeSquash",
+           exp |-> IF Gen THEN [nc |-> nc + 1, t |-> PatchTree(HeadTree, TreeOf(MergeBase(head, tip2)), tree[tip2])]
+                   ELSE <<>>])
+
+GenRewrite ==
+  \/ "branch" \in Alphabet /\ MakeBranch
+  \/ "switch" \in Alphabet /\ Switch
+  \/ "rebase" \in Alphabet /\ Rebase
+  \/ "cherry" \in Alphabet /\ \E o \in 1..nc : CherryPick(o)
+  \/ "amend"  \in Alphabet /\ Amend
+  \/ "squash" \in Alphabet /\ MergeSquash
+
+-----------------------------------------------------------------------------
 (* Initial states *)
 
 NoTrees == [c \in 1..MaxCommit |-> AllEmpty]
@@ -669,13 +884,13 @@ InitCommon ==
 InitUnborn ==
   /\ wt = AllEmpty /\ idx = AllEmpty /\ tree = NoTrees
   /\ par = [c \in 1..MaxCommit |-> 0] /\ ckind = [c \in 1..MaxCommit |-> None]
-  /\ nc = 0 /\ head = 0
+  /\ nc = 0 /\ head = 0 /\ tip2 = 0 /\ side = FALSE
   /\ truth = [u \in 1..MaxUid |-> None] /\ nu = 1 /\ der = [u \in 1..MaxUid |-> 0]
 
 InitBase ==
   /\ wt = BaseTree /\ idx = BaseTree /\ tree = [NoTrees EXCEPT ![1] = BaseTree]
   /\ par = [c \in 1..MaxCommit |-> 0] /\ ckind = [[c \in 1..MaxCommit |-> None] EXCEPT ![1] = "init"]
-  /\ nc = 1 /\ head = 1
+  /\ nc = 1 /\ head = 1 /\ tip2 = 0 /\ side = FALSE
   /\ truth = [u \in 1..MaxUid |-> IF u <= BaseLines THEN H ELSE None] /\ nu = BaseLines + 1
   /\ der = [u \in 1..MaxUid |-> 0]
 
@@ -691,6 +906,7 @@ Next ==
      \/ GenStage
      \/ GenCommit
      \/ GenDestructive
+     \/ GenRewrite
      \/ "readonly" \in Alphabet /\ \E c \in {"status", "log", "diff"} : ReadOnly(c)
      \/ "ckpt_repeat" \in Alphabet /\ CkptRepeat
 
@@ -709,11 +925,11 @@ TrReset ==
      IN IF k = "base"
         THEN /\ wt' = BaseTree /\ idx' = BaseTree /\ tree' = [NoTrees EXCEPT ![1] = BaseTree]
              /\ ckind' = [[c \in 1..MaxCommit |-> None] EXCEPT ![1] = "init"]
-             /\ nc' = 1 /\ head' = 1
+             /\ nc' = 1 /\ head' = 1 /\ tip2' = 0 /\ side' = FALSE
              /\ truth' = [u \in 1..MaxUid |-> IF u <= BaseLines THEN H ELSE None] /\ nu' = BaseLines + 1
         ELSE /\ wt' = AllEmpty /\ idx' = AllEmpty /\ tree' = NoTrees
              /\ ckind' = [c \in 1..MaxCommit |-> None]
-             /\ nc' = 0 /\ head' = 0
+             /\ nc' = 0 /\ head' = 0 /\ tip2' = 0 /\ side' = FALSE
              /\ truth' = [u \in 1..MaxUid |-> None] /\ nu' = 1
   /\ par' = [c \in 1..MaxCommit |-> 0] /\ der' = [u \in 1..MaxUid |-> 0]
   /\ stash' = <<>> /\ snote' = <<>>
@@ -740,9 +956,17 @@ TrStashPop  == IsEv("StashPop") /\ StashPop
 TrReadOnly   == IsEv("ReadOnly") /\ ReadOnly(Ev.cmd)
 TrCkptRepeat == IsEv("CkptRepeat") /\ CkptRepeat
 
+TrBranch == IsEv("Branch") /\ MakeBranch
+TrSwitch == IsEv("Switch") /\ Switch
+TrRebase == IsEv("Rebase") /\ Rebase
+TrCherry == IsEv("CherryPick") /\ CherryPick(Ev.c)
+TrAmend  == IsEv("Amend") /\ Amend
+TrSquash == IsEv("MergeSquash") /\ MergeSquash
+
 TraceNext ==
   /\ ~Gen
-  /\ \/ TrReadOnly \/ TrCkptRepeat
+  /\ \/ TrBranch \/ TrSwitch \/ TrRebase \/ TrCherry \/ TrAmend \/ TrSquash
+     \/ TrReadOnly \/ TrCkptRepeat
      \/ TrReset \/ TrEdit \/ TrCkpt \/ TrAdd \/ TrCommit
      \/ TrResetHard \/ TrResetKeep \/ TrDiscard \/ TrStashPush \/ TrStashPop
 
